@@ -77,8 +77,23 @@ func (r *LongLinesRule) Check(ctx *linter.Context) ([]linter.Violation, error) {
 
 		// Skip comment-only lines (optional - could be configurable)
 		trimmed := strings.TrimSpace(line)
-		if strings.HasPrefix(trimmed, "--") || strings.HasPrefix(trimmed, "/*") {
+		if strings.HasPrefix(trimmed, "--") {
 			continue
+		}
+		if strings.HasPrefix(trimmed, "/*") {
+			// comment-only: nothing but comments on the line (the last one may run past its end)
+			rest := trimmed
+			for strings.HasPrefix(rest, "/*") {
+				end := strings.Index(rest[2:], "*/")
+				if end < 0 {
+					rest = ""
+					break
+				}
+				rest = strings.TrimSpace(rest[end+4:])
+			}
+			if rest == "" || strings.HasPrefix(rest, "--") {
+				continue
+			}
 		}
 
 		if lineLength > r.MaxLength {
